@@ -99,15 +99,9 @@ def nontrivial(case, obs):
     return any(l.startswith("(ok (") and l != "(ok ())" for l in obs)
 
 
-def f25_collector_then_text(case, obs):
-    """every crash of the case is the NotImplementedError of a COLLECTOR-typed segment without collector
-    terms (text glued to a closing parenthesis, e.g. '(a)b')"""
-    vs = list(violations(case, obs))
-    return bool(vs) and all(line == "(raise (crash NotImplemented))" and ec.collector_then_text(path)
-                            for path, _mode, line in vs)
-
-
-FINDING_PREDS = {"collector_then_text": f25_collector_then_text}
+# finding F25 (text glued to a closing collector parenthesis, '(a)b': NotImplementedError) is repaired in the
+# parser; its witnesses stay in the corpus below
+FINDING_PREDS = {}
 
 
 def corpus_chunks():
